@@ -642,6 +642,74 @@ fn run_family(run: &Run, f: &Family) {
     println!("  family {}: {} shapes, {} graphs, t={:.1}s", f.name, shapes.len(), graphs, run.elapsed());
 }
 
+/// Width-boundary sub-family: every offset width has its own limit L = 2^(8w) - 1. For w = 16 and
+/// 24 bits (32 cannot be reached) a handful of 2-4 node templates put the parent-to-child distance
+/// of one w-bit link on exactly L-1, L, L+1, L+2:
+///   T1  root(size d) -w-> C                       the link is the only one (also with adjustment 2)
+///   T2  root -w-> A(size d) -w-> C                chain: no alternative order
+///   T3  root -32-> F(filler), root -w-> C         order [root,F,C] has distance d, [root,C,F] fits
+///   T4  root -32-> F(size d) -w-> C, root -32-> C filler is the parent, inside a 32-bit space
+///   T5  root -w-> A(filler), root -w-> B          all narrow; the alternative order fits
+/// A distance above L must be refused or resolved by another order; whatever is returned as packed
+/// is unfolded byte for byte (each 24-bit graph is ~16 MiB, so there are only a few dozen).
+fn width_boundary(run: &Run) {
+    let mut graphs: Vec<(String, G)> = vec![];
+    for w in [2u8, 3] {
+        let limit: u32 = (1u32 << (8 * w as u32)) - 1;
+        for (dn, d) in [("L-1", limit - 1), ("L", limit), ("L+1", limit + 1), ("L+2", limit + 2)] {
+            let root_links_t3 = 4 + w as u32; // root of T3: a 32-bit and a w-bit link, no other bytes
+            let templates: Vec<(&str, G)> = vec![
+                ("T1", G { n: 2, sizes: vec![d, 4], edges: vec![(0, 1, w, 0)], id_order: 0 }),
+                ("T1adj2", G { n: 2, sizes: vec![d, 4], edges: vec![(0, 1, w, 2)], id_order: 0 }),
+                ("T2", G { n: 3, sizes: vec![4, d, 4], edges: vec![(0, 1, w, 0), (1, 2, w, 0)], id_order: 0 }),
+                ("T3", G { n: 3, sizes: vec![0, d - root_links_t3, 4], edges: vec![(0, 1, 4, 0), (0, 2, w, 0)], id_order: 0 }),
+                ("T4", G { n: 3, sizes: vec![0, d, 4], edges: vec![(0, 1, 4, 0), (0, 2, 4, 0), (1, 2, w, 0)], id_order: 0 }),
+                ("T5", G { n: 3, sizes: vec![0, d - 2 * w as u32, 4], edges: vec![(0, 1, w, 0), (0, 2, w, 0)], id_order: 0 }),
+            ];
+            for (t, g) in templates {
+                for id_order in [0u8, 1] {
+                    let mut g = g.clone();
+                    g.id_order = id_order;
+                    graphs.push((format!("w{} {} d={} ids={}", 8 * w as u32, t, dn, id_order), g));
+                }
+            }
+        }
+    }
+    let results: Vec<(String, Local)> = graphs
+        .par_iter()
+        .map(|(name, g)| {
+            let mut l = Local::default();
+            run_graph(run, g, &mut l);
+            (name.clone(), l)
+        })
+        .collect();
+    let mut outcomes = serde_json::Map::new();
+    for (name, l) in &results {
+        run.observe_many(&l.all, &l.nontrivial);
+        for (k, v) in &l.c {
+            run.count(k, *v);
+        }
+        let o = if l.c.contains_key("panics") { "panic" } else if l.c.contains_key("packed") { "packed" } else { "refused" };
+        outcomes.insert(name.clone(), json!(o));
+    }
+    run.evals(graphs.len() as u64);
+    run.trans(graphs.len() as u64 * 2);
+    run.count("graphs[width_boundary_16_and_24_bit]", graphs.len() as u64);
+    // vacuity gate: the trivially fitting cases (only link, distance <= L) must have been packed,
+    // otherwise the family did not put anything on the boundary
+    for w in ["w16", "w24"] {
+        for d in ["L-1", "L"] {
+            let key = format!("{w} T1 d={d} ids=0");
+            if outcomes.get(&key).and_then(|v| v.as_str()) != Some("packed") {
+                run.machinery_error(&format!("width-boundary case '{key}' was not packed: the boundary family is vacuous"));
+            }
+        }
+    }
+    run.extra("width_boundary_outcomes", Value::Object(outcomes));
+    run.bound("width_boundary", json!("link widths 16 and 24 x distance in {L-1, L, L+1, L+2} (L = 2^(8w)-1) x templates {only link, only link with adjustment 2, chain, 32-bit filler with alternative order, filler parent inside a 32-bit space, narrow filler with alternative order} x both id orders"));
+    println!("  family width_boundary: {} graphs, t={:.1}s", graphs.len(), run.elapsed());
+}
+
 fn body(run: &Run, replay: Option<&Value>) {
     run.rule("G: a case is one rooted DAG (shape x per-node size x link widths x multi-edge/adjustment variant x object-id order) packed and serialised by the real packer; P: one Gpos value compiled by dump_table. distinct outcomes = distinct final layouts (sequence of object copies incl. duplicates, size-class pattern, whether the first sort sufficed); non-trivial = the first sort overflowed and the packer had to assign spaces / duplicate / split / promote");
     run.assume("the hook builds the Graph exactly as Graph::from_objects would for real TableData (one TableData per NodeSpec, fill bytes, OffsetRecords as given)");
@@ -702,6 +770,8 @@ fn body(run: &Run, replay: Option<&Value>) {
         }
     }
 
+    // --- width boundaries (16- and 24-bit limits), both tiers
+    width_boundary(run);
     // --- N <= 3: everything, two deviations, both id orders
     for n in 1..=3 {
         run_family(run, &Family {
